@@ -2,6 +2,7 @@ package server
 
 import (
 	"context"
+	"sort"
 	"strings"
 
 	"go.lsp.dev/protocol"
@@ -15,18 +16,28 @@ func (s *Server) WorkspaceSymbol(ctx context.Context, params *protocol.Workspace
 
 	var symbols []protocol.SymbolInformation
 
-	s.documents.Range(func(key, value any) bool {
-		uri := key.(protocol.DocumentURI)
-		content := value.(string)
+	// Documents are visited in URI order: sync.Map ranges in no particular order.
+	var uris []string
+	s.documents.Range(func(key, _ any) bool {
+		uris = append(uris, string(key.(protocol.DocumentURI)))
+		return true
+	})
+	sort.Strings(uris)
+
+	for _, u := range uris {
+		uri := protocol.DocumentURI(u)
+		content, ok := s.GetDocument(uri)
+		if !ok {
+			continue
+		}
 
 		journal, _ := parser.Parse(content)
 		if journal == nil {
-			return true
+			continue
 		}
 
 		symbols = append(symbols, extractSymbols(journal, uri, query)...)
-		return true
-	})
+	}
 
 	return symbols, nil
 }
